@@ -18,7 +18,8 @@ for kind in ("file-ops", "metadata-only"):
     register(Unit(P, f"RETRY/Transaction.commit-{kind}", cp.h_tx_commit(kind, False), functions=[f"{cp.TX}:Transaction.commit"], replay=cp._replay_tx))
 for mode in ("append", "delete", "both"):
     register(Unit(P, f"DERIVE/_commit_file_ops-{mode}", cp.h_commit_file_ops(mode), functions=[f"{cp.TX}:Transaction._commit_file_ops"], replay=cp._replay_tx))
-register(Unit(P, "DERIVE/create_snapshot", cp.h_create_snapshot, functions=[f"{cp.SM}:SnapshotManager.create_snapshot"], replay=cp._replay_tx))
+from contracts import snapshots as _S
+register(Unit(P, "DERIVE/create_snapshot", _S.h_create_snapshot_wf, functions=[f"{cp.SM}:SnapshotManager.create_snapshot"], replay=cp._replay_tx))
 register(Unit(P, "DERIVE/delete_snapshot", cp.h_delete_snapshot, functions=[f"{cp.SM}:SnapshotManager.delete_snapshot"], replay=cp._replay_tx))
 from contracts import C19_locks as _c19
 register(Unit(P, "GUAR-lock/FileLock.release(inode-persistent)", _c19.h_release, functions=["file_lock:FileLock.release"], replay=_c19._replay_flock, reg_factory=_c19.registry))
